@@ -267,6 +267,10 @@ INJECTED = {
                   {"quick": ["lexer_total_n1", "lexer_total_n2", "lexer_total_n3"],
                    "thorough": ["lexer_total_n1", "lexer_total_n2", "lexer_total_n3", "lexer_total_n4", "lexer_total_n5"]},
                   "input text of <= 3 (quick) / <= 5 (thorough) bytes, every byte value"),
+    "smt_ident": ("patronus", "patronus/src/smt/serialize.rs", "kl/inject/smt_ident.rs",
+                  {"quick": ["simple_symbol_n0", "simple_symbol_n1", "simple_symbol_n2"],
+                   "thorough": ["simple_symbol_n0", "simple_symbol_n1", "simple_symbol_n2"]},
+                  "names of <= 2 characters, every Unicode scalar value (3 characters exhaust the back end)"),
     "meta_fixed_point": ("patronus", "patronus/src/expr/meta.rs", "kl/inject/meta.rs",
                          {"quick": ["get_fixed_point_n2", "get_fixed_point_n4", "get_fixed_point_n6"],
                           "thorough": ["get_fixed_point_n2", "get_fixed_point_n4", "get_fixed_point_n6", "get_fixed_point_n8"]},
